@@ -233,10 +233,14 @@ def execute_history(ctx, registry, clock, steps, kind):
                 break
             delta = srv.rv_log[pos:]
             pos = len(srv.rv_log)
+            stale = model.stale_under(step[3], now) if op == "query" else []
             ctx.count("notifications_checked", len(delta))
             step_bad = judge_notifications(model, notified, delta, step, now)
             if op == "register":
                 fresh = len(set(fold(n) for n in step[3] if not model.has((fold(n), (step[2], step[4])))))
+                for k in set((fold(x), (step[2], step[4])) for x in step[3]):
+                    if model.has(k):
+                        ctx.count("reregistered_stale_unpruned" if model.stale(k, now) else "keepalives")
                 model.register(step[2], step[3], step[4], now)
                 shape.append(("R", len(step[3]), fresh))
                 if reply != "OK":
@@ -248,7 +252,6 @@ def execute_history(ctx, registry, clock, steps, kind):
                 if reply != "OK":
                     step_bad.append(("unregister-reply", "cmd_unregister returned %r, not 'OK'" % (reply,)))
             elif op == "query":
-                stale = model.stale_under(step[3], now)
                 expected = model.query(step[3], now)
                 ctx.count("queries_compared")
                 ctx.count("stale_entries_at_query", len(stale))
@@ -623,7 +626,7 @@ def hostile_corpus(rng, n_random, first_shard, maxlen):
         for args in ((), ("alpha", "x"), (("alpha",),), None, 5, "alpha", ("alpha", None, None)):
             fixed.append(out("args/query-arity-or-type", ("RPYC", "QUERY", args), ("qa", repr(args)[:14])))
         # undecodable text payloads: a text tag over bytes that are not UTF-8
-        for bad in (b"\xff\xfe\xfd\xfc", b"\xc3\x28ab", b"\xed\xa0\x80x", b"\xf8\x88\x80\x80"):
+        for bad in (b"\xff\xfe\xfd\xfc", b"\xc3\x28ab", b"\x80\xbf\x80\xbf", b"\xf8\x88\x80\x80"):
             raw = rc.encode(("RPYC", "QUERY", ("ZZZZ",))).replace(b"ZZZZ", bad)
             fixed.append(("names/undecodable", raw, ("q", bad.hex())))
             raw = rc.encode(("RPYC", "REGISTER", (("ZZZZ", "alpha"), 41009))).replace(b"ZZZZ", bad)
